@@ -68,6 +68,30 @@ Proof.
       exact Hmain.
 Qed.
 
+Lemma agg_clean_units_d d : forall others fuel, (length others < fuel)%nat ->
+  Forall (fun x => 0 <= fst x < 256 /\ zlen (snd x) < 65536) others ->
+  agg_clean fuel d (concat (map (agg_unit d) others)) = true.
+Proof.
+  induction others as [|[dd u] t IH]; intros fuel Hf Hall;
+    (destruct fuel as [|fuel]; [cbn [length] in Hf; lia|]).
+  - reflexivity.
+  - apply Forall_cons_iff in Hall. destruct Hall as [[Hd Hu] Ht]. cbn [fst snd] in Hd, Hu.
+    cbn [map concat]. unfold agg_unit at 1. cbn [fst snd].
+    pose proof (zlen_nonneg u) as Hu0.
+    destruct (put16_split (zlen u) ltac:(lia)) as (a & b & -> & Hab).
+    assert (Hmain : agg_clean fuel d (drop (zlen u) (u ++ concat (map (agg_unit d) t))) = true).
+    { rewrite drop_app_exact. apply IH; [cbn [length] in Hf; lia|exact Ht]. }
+    destruct d; cbn [agg_clean app].
+    + unfold be16. rewrite Hab.
+      replace (zlen (u ++ concat (map (agg_unit true) t)) <? zlen u) with false
+        by (rewrite zlen_app; pose proof (zlen_nonneg (concat (map (agg_unit true) t))); lia).
+      exact Hmain.
+    + unfold be16. rewrite Hab.
+      replace (zlen (u ++ concat (map (agg_unit false) t)) <? zlen u) with false
+        by (rewrite zlen_app; pose proof (zlen_nonneg (concat (map (agg_unit false) t))); lia).
+      exact Hmain.
+Qed.
+
 Ltac kill_if c v := replace c with v by (symmetry; lia).
 Ltac no_short :=
   match goal with
@@ -164,6 +188,7 @@ Proof.
     pose proof (zlen_nonneg u). pose proof (zlen_nonneg (concat (map (agg_unit d) t))).
     pose proof (zlen_nonneg (if d then [dd] else [])). lia. }
   assert (Hwalk : forall fd, (if zlen (first ++ rest) <? zlen first then Err EShort else
+            if negb (agg_clean (S (length (first ++ rest))) d (drop (zlen first) (first ++ rest))) then Err EShort else
             match agg_others (S (length (first ++ rest))) d (drop (zlen first) (first ++ rest)) [] with
             | [] => Err EShort
             | _ :: _ => Ok (PAgg fd (take (zlen first) (first ++ rest))
@@ -171,9 +196,11 @@ Proof.
             end) = Ok (PAgg fd first (map (fun x => (od d (fst x), snd x)) others))).
   { intros fd. rewrite zlen_app. kill_if (zlen first + zlen rest <? zlen first) false.
     rewrite take_app_exact, drop_app_exact. subst rest.
-    rewrite agg_others_units; [| |exact Hall].
-    - cbn [rev app]. destruct others as [|x t]; [contradiction|]. reflexivity.
-    - rewrite app_length. pose proof (length_units d others). lia. }
+    assert (Hfu : (length others < S (length (first ++ concat (map (agg_unit d) others))))%nat)
+      by (rewrite app_length; pose proof (length_units d others); lia).
+    rewrite (agg_clean_units_d d others _ Hfu Hall). cbn [negb].
+    rewrite agg_others_units; [|exact Hfu|exact Hall].
+    cbn [rev app]. destruct others as [|x t]; [contradiction|]. reflexivity. }
   unfold h265_unmarshal. cbn [app]. rewrite !zlen_cons.
   pose proof (zlen_nonneg (opt16 d donl ++ put16 (zlen first) ++ first ++ rest)).
   replace (1 + (1 + zlen (opt16 d donl ++ put16 (zlen first) ++ first ++ rest)) <=? 2) with false
